@@ -1,8 +1,8 @@
 #!/bin/sh
-# tools/run_all.sh <tier> [seed] : run every registered check once, print one line per check (used for sweeps via `vp run`)
+# tools/run_all.sh <tier> [seed] (IDS="01 04" restricts the list) : run every registered check once, print one line per check (used for sweeps via `vp run`)
 cd "$(dirname "$0")/.." || exit 2
 TIER=${1:-quick}; SEED=${2:-1}
-for i in 01 02 03 04 05 06 07 08 09 10 11 12 13 14 15 16 17 18 19 20; do
+for i in ${IDS:-01 02 03 04 05 06 07 08 09 10 11 12 13 14 15 16 17 18 19 20}; do
   start=$(date +%s)
   out=$(VERIF_SEED=$SEED ./check C$i --tier "$TIER" 2>&1); rc=$?
   end=$(date +%s)
